@@ -431,3 +431,10 @@ T('h_stats_init_inlined_reset', ['C19'],
           '    def __init__(self):\n        self.route_hits = defaultdict(lambda: defaultdict(RouteStatReservoir))\n        self.last_reset = datetime.datetime.utcnow()\n\n    def reset(self):'))
 B('h_stats_init_without_counters', ['C19'], 'R19.b',
   (STATS, '    def __init__(self):\n        self.reset()\n\n    def reset(self):', '    def __init__(self):\n        self.last_reset = None\n\n    def reset(self):'))
+# the body swapped in through the public API: BaseResponse.set_data stores [value] and its Content-Length
+T('h_gz_set_data', ['C15'],
+  (GZ, "        resp.response = [comp_content]\n        resp.content_length = len(comp_content)\n", "        resp.set_data(comp_content)\n"))
+T('h_gz_data_property', ['C15'],
+  (GZ, "        resp.response = [comp_content]\n", "        resp.data = comp_content\n"))
+B('h_gz_set_data_of_original', ['C15'], 'R15.d',
+  (GZ, "        resp.response = [comp_content]\n        resp.content_length = len(comp_content)\n", "        resp.set_data(resp.data)\n"))
